@@ -192,17 +192,107 @@ def derive(seg, prov):
 
 
 
-def provenance_shards(shards, tier, is_segment_shard):
+def provenance_shards(shards, tier, is_segment_shard, key='prov', values=None):
     """extra shard descriptors that re-run segment-library shards on derived objects: every provenance in
-    the thorough tier, one per shard (rotating through the list) in the quick tier"""
+    the thorough tier, one per shard (rotating through the list) in the quick tier.  key='pprov' does the
+    same for shards whose object under test is a Path (see derive_path)"""
+    values = values or (PROVENANCES if key == 'prov' else PATH_PROVENANCES)
     out = []
     k = 0
     for d in shards:
         if not is_segment_shard(d):
             continue
         if tier == 'thorough':
-            out += [dict(d, prov=p) for p in PROVENANCES]
+            out += [dict(d, **{key: p}) for p in values]
         else:
-            out.append(dict(d, prov=PROVENANCES[k % len(PROVENANCES)]))
+            out.append(dict(d, **{key: values[k % len(values)]}))
             k += 1
     return out
+
+
+# The same for whole paths: the path under test is replaced by an equal path as the library hands it out.
+PATH_PROVENANCES = ['parsed', 'parsed_Z', 'reversed_twice', 'translated_0', 'rotated_0', 'scaled_1', 'measured',
+                    'subpath_object', 'document', 'scaled_there_and_back', 'copied']
+
+
+def derive_path(p):
+    """p itself, or (when the running shard has a 'pprov' context) an EQUAL path with another history:
+    parsed from its own d-string (with or without Z: the parser's closed flag), reversed twice, moved by
+    nothing, measured first, the object continuous_subpaths() returns, read back from an SVG document
+    (carries .element / .transform), scaled by 2 and then by 1/2 (exact), copy.copy"""
+    from mc import core
+    prov = core.CONTEXT.get('pprov')
+    if not prov or len(p) == 0:
+        return p
+    import copy
+    import warnings
+    from svgpathtools import parse_path
+    with warnings.catch_warnings():
+        warnings.simplefilter('ignore')
+        if prov in ('parsed', 'parsed_Z'):
+            try:
+                q = parse_path(p.d(use_closed_attrib=(prov == 'parsed_Z')))
+            except Exception:
+                return p
+            return q if _same_path(p, q) else p
+        if prov == 'reversed_twice':
+            q = p.reversed().reversed()
+        elif prov == 'translated_0':
+            q = p.translated(0j)
+        elif prov == 'rotated_0':
+            q = p.rotated(0, origin=0j)
+        elif prov == 'scaled_1':
+            q = p.scaled(1.0)
+        elif prov == 'measured':
+            for f in (lambda: p.length(), lambda: p.point(0.3), lambda: p.bbox(), lambda: p.start, lambda: p.end,
+                      lambda: p.isclosed() if p.iscontinuous() else None, lambda: p.T2t(0.6), lambda: p.d()):
+                try:
+                    f()
+                except Exception:
+                    pass
+            return p
+        elif prov == 'subpath_object':
+            subs = p.continuous_subpaths()
+            return subs[0] if len(subs) == 1 else p
+        elif prov == 'document':
+            import os
+            import tempfile
+            from svgpathtools import Document
+            d = tempfile.mkdtemp(prefix='verif_prov_')
+            try:
+                doc = Document()
+                doc.add_path(p, attribs={'id': 'x'})
+                fn = os.path.join(d, 'p.svg')
+                doc.save(fn)
+                got = Document(fn).paths()
+                q = got[0] if len(got) == 1 else p
+            except Exception:
+                q = p
+            finally:
+                import shutil
+                shutil.rmtree(d, ignore_errors=True)
+        elif prov == 'scaled_there_and_back':
+            q = p.scaled(2.0).scaled(0.5)
+        elif prov == 'copied':
+            q = copy.copy(p)
+        else:
+            raise ValueError(prov)
+    return q if _same_path(p, q) else p
+
+
+def _same_path(p, q):
+    """the derived path may replace p only if it is the same path by value (each harness computes its
+    reference from the segment values it built)"""
+    if len(p) != len(q):
+        return False
+    for a, b in zip(p, q):
+        if type(a) is not type(b):
+            return False
+        if isinstance(a, Arc):
+            if not (a.start == b.start and a.end == b.end and a.large_arc == b.large_arc and a.sweep == b.sweep and
+                    abs(a.radius - b.radius) <= 1e-12 * abs(a.radius) and abs((a.rotation - b.rotation + 180) % 360 - 180) <= 1e-12 and
+                    abs(a.point(0.37) - b.point(0.37)) <= 1e-9 * (abs(a.radius) + 1e-300)):
+                return False
+        elif tuple(a.bpoints()) != tuple(b.bpoints()):
+            return False
+    return True
